@@ -87,19 +87,19 @@ def p1(ctx: Ctx):
         idx.setdefault(p.cls, p.index)
         line.setdefault(p.cls, p.line)
 
-    def before(a: str, ia: int, b: str, ib: int, why: str, ln: int):
+    def before(a: str, ia: int, b: str, ib: int, why: str, ln: int, props=None):
         ok = ia < ib
-        ctx.ob(f"{a}<{b}", ok, "" if ok else f"`{a}` runs after `{b}` in convert(): {why}", file=COMPILER_REL, line=ln, facts={"index": [ia, ib]})
+        ctx.ob(f"{a}<{b}", ok, "" if ok else f"`{a}` runs after `{b}` in convert(): {why}", file=COMPILER_REL, line=ln, facts={"index": [ia, ib]}, props=props)
 
     hoisters = [c for c in roles["hoister"] if c in idx]
     ctx.need(hoisters, "hoister", "the hoisting pass is not run by convert()")
     h = hoisters[0]
     for c in sorted(roles["creator"]):
         if c in idx and c != h:
-            before(c, idx[c], h, idx[h], "constructs it creates are never seen by the hoisting pass, their procedure calls are not emitted", line[c])
+            before(c, idx[c], h, idx[h], "constructs it creates are never seen by the hoisting pass, their procedure calls are not emitted", line[c], ["C05", "C03"])
     for c in sorted(roles["var_collector"]):
         if c in idx:
-            before(h, idx[h], c, idx[c], "temporaries created by hoisting are not declared / initialised", line[c])
+            before(h, idx[h], c, idx[c], "temporaries created by hoisting are not declared / initialised", line[c], ["C05", "C10", "C03"])
     # every insertion of lines that contain DIM statements precedes the pass that configures DIM statements
     for ins in P.insertions:
         src = unparse(ins.arg)
@@ -121,24 +121,25 @@ def p1(ctx: Ctx):
                         idx[dc],
                         "DIM statements created for undeclared arrays never receive the requested string size (an implicit string array keeps BASIC09's 32 bytes)",
                         ins.line,
+                        ["C10"],
                     )
     rc = [c for c in roles["ref_collector"] if c in idx]
     ctx.need(rc, "ref_collector", "the line-reference collector is not run by convert()")
     for c in sorted(roles["label_filter"] | roles["line_checker"]):
         if c in idx:
-            before(rc[0], idx[rc[0]], c, idx[c], "labels are filtered / targets are checked against an empty reference set", line[c])
+            before(rc[0], idx[rc[0]], c, idx[c], "labels are filtered / targets are checked against an empty reference set", line[c], ["C06"])
     # detector before the READ patcher, patcher conditional on the detector's flag
     for d in sorted(roles["data_detector"]):
         for r in sorted(roles["read_patcher"]):
             if d in idx and r in idx:
-                before(d, idx[d], r, idx[r], "empty DATA items are looked for after the READ statements were rewritten", line[r])
+                before(d, idx[d], r, idx[r], "empty DATA items are looked for after the READ statements were rewritten", line[r], ["C03"])
     # refusals and all passes precede emission
     ctx.need(P.emit_index is not None, "emit", "`<prog>.basic09_text(` not found in convert()")
     for ln, cls, conds, i in P.raises:
-        before(f"raise {cls}@{'&'.join(conds) or 'always'}", i, "emit", P.emit_index, "a program that must be refused is emitted first", ln)
+        before(f"raise {cls}@{'&'.join(conds) or 'always'}", i, "emit", P.emit_index, "a program that must be refused is emitted first", ln, ["C06"])
     for p in P.passes:
         if p.index > P.emit_index:
-            ctx.ob(f"{p.cls}<emit", False, f"pass `{p.cls}` runs after the program text was produced", file=COMPILER_REL, line=p.line)
+            ctx.ob(f"{p.cls}<emit", False, f"pass `{p.cls}` runs after the program text was produced", file=COMPILER_REL, line=p.line, props=["C05"])
 
 
 # ---------------------------------------------------------------------------
@@ -156,8 +157,8 @@ P2_ALLOWED = {
     "add_standard_prefix": (set(), ELEMENT_CTORS | {"insert_lines_at_beginning", "BasicHbuffPresenceVisitor", "visit", "=prefix_lines", "=hbuff_visitor"}),
     "add_suffix": (set(), {"append_lines"}),
     "output_dependencies": (
-        {"match", "set_procname", "get_procedure_and_dependencies", "add_from_str"},
-        {"=procname", "=program", "=procedure_bank", "match", "const:procname", "const:'program'", "ProcedureBank", "add_from_resource", "add_from_str", "get_procedure_and_dependencies"},
+        {"match", "fullmatch", "search", "set_procname", "get_procedure_and_dependencies", "add_from_str"},
+        {"=procname", "=program", "=procedure_bank", "match", "fullmatch", "search", "const:procname", "const:'program'", "ProcedureBank", "add_from_resource", "add_from_str", "get_procedure_and_dependencies"},
     ),
 }
 P2_ALLOWED["skip_procedure_headers"] = P2_ALLOWED["output_dependencies"]
@@ -709,7 +710,7 @@ E6_ALLOWED = {
     "LineZeroFilterVisitor": {"call:set_is_referenced"},
     "SetDimStringStorageVisitor": {"store:default_str_storage", "store:strname_to_size"},
     "SetInitializeVisitor": {"store:initialize_vars"},
-    "BasicReadStatementPatcherVisitor": {"store:literal", "call:get_new_temp", "store:rhs_list[]"},
+    "BasicReadStatementPatcherVisitor": {"store:literal", "call:get_new_temp", "store:rhs_list[]", "store:exp_list[]"},
     "BasicNextPatcherVisitor": {"call:append"},
     "BasicFunctionalExpressionPatcherVisitor": {"call:set_var", "call:transform_function_to_call"},
 }
